@@ -526,6 +526,11 @@ func performIDPRequest(log telemetry.Logger, client *http.Client, uri string, fo
 		log.Error("error unmarshalling tokens response", err)
 		return nil, codes.Internal
 	}
+	// the JSON document "null" unmarshals without error and leaves a nil pointer
+	if bodyTokens == nil {
+		log.Error("error unmarshalling tokens response", errors.New("empty tokens response"))
+		return nil, codes.Internal
+	}
 
 	return bodyTokens, codes.OK
 }
